@@ -75,6 +75,7 @@ class State(object):
         self.memo = {}
         self.ref = None
         self.pending = []
+        self.named = set()
         self.stats = {'probes': 0, 'probe2': 0, 'history_opens': 0,
                       'ref_queries': 0, 'ref_memo_hits': 0, 'nontrivial': False,
                       'registry_len_start': None, 'registry_len_max': 0,
@@ -361,8 +362,17 @@ def gen_op(rng, st):
         op = {'op': 'hmf', 'fids': [f, f], 'stackdim': rng.choice(['TSTEP', 'time'])}
     elif name == 'register':
         kind = rng.choice(['plain', 'magic', 'suffix', 'raising'])
-        op = {'op': 'register', 'reg': {'kind': kind, 'name': 'UserFmt%d' % st.greg,
-                                        'suffix': rng.choice(['usr', 'dat', 'nc', 'xyz'])}}
+        name = 'UserFmt%d' % st.greg
+        # a reader whose registered NAME equals a suffix used by pool files:
+        # from then on the suffix preference applies to those files
+        free = [x for x in ('usr', 'dat', 'txt', 'bin', 'ict', 'kv', 'bc', 'emis', 'avrg', 'nc4')
+                if x not in st.named]
+        if free and rng.random() < 0.4:
+            name = rng.choice(free)
+            st.named.add(name)
+            kind = rng.choice(['magic', 'suffix', 'raising'])
+        op = {'op': 'register', 'reg': {'kind': kind, 'name': name,
+                                        'suffix': rng.choice(['usr', 'dat', 'nc', 'xyz', 'txt'])}}
         st.greg += 1
     else:
         op = {'op': 'collect'}
